@@ -2,6 +2,10 @@ package main
 
 import (
 	"bytes"
+	"crypto/rand"
+	"crypto/rsa"
+	stdx509 "crypto/x509"
+	"crypto/x509/pkix"
 	"fmt"
 
 	"github.com/zmap/zlint/v3"
@@ -81,7 +85,10 @@ func init() {
 		}
 		certsTried, replaced, compared := 0, 0, 0
 		classes := map[string]int{}
-		for _, cc := range corpus.Certs {
+		targets := append([]CorpusCert{}, corpus.Certs...)
+		targets = append(targets, ownKeyCerts()...)
+		classes["generated: issuer differs from subject, signed with the certified key"] = len(targets) - len(corpus.Certs)
+		for _, cc := range targets {
 			if bytes.Equal(cc.Cert.RawIssuer, cc.Cert.RawSubject) {
 				classes["self-issued (skipped)"]++
 				continue
@@ -171,4 +178,61 @@ func init() {
 		out.Data["classes"] = classes
 		return out.Emit()
 	}
+}
+
+// ownKeyCerts: certificates that are NOT self-issued (issuer name differs from subject name) yet whose signature was
+// made with the very key they certify - a renamed CA re-certifying its own key, or an end-entity key signing itself
+// under another name - with authorityKeyIdentifier equal to, absent, or different from subjectKeyIdentifier.  Their
+// classification must not depend on whether the signature happens to verify under some key.
+func ownKeyCerts() []CorpusCert {
+	k := getKit()
+	var out []CorpusCert
+	if k.rsaKey == nil {
+		if key, err := rsa.GenerateKey(rand.Reader, 2048); err == nil {
+			k.rsaKey = key
+		}
+	}
+	type signer struct {
+		name string
+		pub  interface{}
+		priv interface{}
+	}
+	signers := []signer{{"ecdsa", &k.caKey.PublicKey, k.caKey}}
+	if k.rsaKey != nil {
+		signers = append(signers, signer{"rsa", &k.rsaKey.PublicKey, k.rsaKey})
+	}
+	ski := []byte{1, 2, 3, 4, 5, 6, 7, 8, 9, 10, 11, 12, 13, 14, 15, 16, 17, 18, 19, 20}
+	for _, sg := range signers {
+		for _, ca := range []bool{true, false} {
+			for _, aki := range []string{"aki=ski", "no-aki", "aki-differs"} {
+				tmpl := leafTemplate()
+				tmpl.SubjectKeyId = ski
+				tmpl.Subject = pkix.Name{CommonName: "renamed.example.com", Organization: []string{"Renamed Example"}, Country: []string{"US"}}
+				if ca {
+					tmpl.IsCA = true
+					tmpl.KeyUsage = stdx509.KeyUsageCertSign | stdx509.KeyUsageCRLSign
+					tmpl.ExtKeyUsage = nil
+					tmpl.DNSNames = nil
+					tmpl.Subject.CommonName = "Renamed Example CA G2"
+				}
+				parent := &stdx509.Certificate{Subject: pkix.Name{CommonName: "Example CA G1", Organization: []string{"Example"}, Country: []string{"US"}}}
+				switch aki {
+				case "aki=ski":
+					parent.SubjectKeyId = ski
+				case "aki-differs":
+					parent.SubjectKeyId = []byte{9, 9, 9, 9, 9, 9, 9, 9, 9, 9, 9, 9, 9, 9, 9, 9, 9, 9, 9, 9}
+				}
+				der, err := stdx509.CreateCertificate(rand.Reader, tmpl, parent, sg.pub, sg.priv)
+				if err != nil {
+					continue
+				}
+				c, err := safeParseCert(der)
+				if err != nil {
+					continue
+				}
+				out = append(out, CorpusCert{fmt.Sprintf("generated-own-key-%s-ca=%v-%s", sg.name, ca, aki), der, c})
+			}
+		}
+	}
+	return out
 }
